@@ -63,6 +63,24 @@ func RunC07(st *simcore.Stream, tier, leg string, logOn bool, res *simcore.Resul
 		return false
 	}
 
+	// KF4's signature on the wire: after the network healed, a side keeps retransmitting one and the
+	// same RespHello: it answers a handshake which the peer has given up (for a newer hello of its
+	// own, or because it restarted), and nobody takes the initiative until a session expires
+	responderAnswersAbandonedHandshake := func() bool {
+		for _, sd := range w.Sides {
+			n := map[uint64]int{}
+			for _, e := range sd.HSOut {
+				if e.At >= healAt && e.Counter == 1 && e.Gen == sd.Gen {
+					n[e.Sum]++
+					if n[e.Sum] >= 3 {
+						return true
+					}
+				}
+			}
+		}
+		return false
+	}
+
 	// at every quiescent point: a Send that is past its bound must have returned
 	w.OnIdleX = func() {
 		if !healed {
@@ -274,6 +292,7 @@ func RunC07(st *simcore.Stream, tier, leg string, logOn bool, res *simcore.Resul
 				With("leg", leg).With("side", r.Side.Name).
 				With("peerRestarted", restarted).
 				With("survivorKeepsRetransmittingAnUnfinishedHandshake", survivorStuckInOldHandshake()).
+				With("aResponderKeepsAnsweringAHandshakeThePeerGaveUp", responderAnswersAbandonedHandshake()).
 				With("sendOnRestartedSide", restartedSide != nil && r.Side == restartedSide && r.Gen == r.Side.Gen).
 				With("recoveredOnceOldSessionsExpired", recovered)
 		}
